@@ -65,7 +65,7 @@ def src_hash(paths):
 def generate():
     """Regenerate coq/Gen/*.v from /repo's working tree (translator tie). Returns (ok, log)."""
     gen = os.path.join(HOME, "tools", "gen.py")
-    if not os.path.exists(gen):
+    if not os.path.exists(gen) or not os.path.exists(os.path.join(HOME, "tools", "GEN_ENABLED")):
         return True, ""
     rc, out = sh(f"/venv/bin/python {gen}", cwd=HOME, timeout=300)
     return rc == 0, out
